@@ -4,7 +4,7 @@
 -/
 import InjModel.Lemmas.X86
 namespace Inj.Props
-open Inj Inj.X86
+open Inj Inj.X86 Inj.Generated
 
 /-- **Encoder + ISA.**  For every pair of 64-bit addresses, in either build profile, the bytes
     `generate_branch_to_target_function` returns, placed at `ori` in any memory and executed by
@@ -29,7 +29,7 @@ theorem C01_branch_lands (mode : Mode) (ori target : Nat)
 /-- A release build never refuses: every address pair gets a branch. -/
 theorem C01_release_total (ori target : Nat) :
     ∃ bs, genBranch Mode.release ori target = Res.ok bs := by
-  unfold genBranch
+  rw [genBranch_eq_lit]; unfold genBranchLit
   simp only [show ¬ (Mode.release = Mode.debug) by decide, false_and, if_false]
   split
   · exact ⟨_, rfl⟩
